@@ -306,6 +306,43 @@ theorem tmp_array_zero_filled (datasize itemSize : Nat) (items : List (List UInt
   simp only [List.length_append, hl, List.length_replicate]
   omega
 
+/-- **Temporaries of distinct arguments are distinct allocations** (`cdata_call` as it is in
+the working tree: `alloca(datasize)` up to the threshold, `PyObject_Malloc` above, evaluated
+inside the per-argument loop), for any number of list/tuple arguments of any sizes; the
+API wrapper likewise allocates per argument (`alloca`, else `PyObject_Malloc` in
+`_cffi_convert_array_argument`). -/
+theorem tmp_buffers_distinct (sizes : List Nat) :
+    (tmpBufferIdsFrom 0 sizes).Nodup
+    ∧ storageOf Generated.CallTmpBuf.small = .fresh ∧ storageOf Generated.CallTmpBuf.large = .fresh
+    ∧ storageOf Generated.CallTmpBuf.apiSmall = .fresh := by
+  have hs : storageOf Generated.CallTmpBuf.small = .fresh := by decide +kernel
+  have hl : storageOf Generated.CallTmpBuf.large = .fresh := by decide +kernel
+  have hid : ∀ k d, tmpBufferId k d = k + 1 := by
+    intro k d
+    have : storageOf (tmpBufferExpr d) = .fresh := by
+      unfold tmpBufferExpr
+      simp only
+      split <;> split <;> assumption
+    simp only [tmpBufferId, this]
+  have key : ∀ (l : List Nat) (k : Nat), (∀ x ∈ tmpBufferIdsFrom k l, k < x) ∧ (tmpBufferIdsFrom k l).Nodup := by
+    intro l
+    induction l with
+    | nil => intro k; simp [tmpBufferIdsFrom]
+    | cons d rest ih =>
+      intro k
+      obtain ⟨h1, h2⟩ := ih (k + 1)
+      simp only [tmpBufferIdsFrom, hid]
+      refine ⟨?_, ?_⟩
+      · intro x hx
+        simp only [List.mem_cons] at hx
+        rcases hx with rfl | hx
+        · omega
+        · have := h1 x hx; omega
+      · rw [List.nodup_cons]
+        refine ⟨fun hmem => ?_, h2⟩
+        have := h1 _ hmem; omega
+  exact ⟨(key sizes 0).2, hs, hl, by decide +kernel⟩
+
 /-- An empty list still yields one (zero) byte. -/
 theorem empty_list_one_zero_byte (itemSize : Nat) : tmpArrayFfi 1 itemSize [] = [0] := by
   simp [tmpArrayFfi, tmpArray, fillItems]
